@@ -121,7 +121,10 @@ func (vc *FnVC) libModel(in *ssa.Call, callee *ssa.Function) bool {
 			r := vc.freshConst("blen", "Int")
 			x := a(0)
 			vc.fact(fmt.Sprintf("(and (>= %s 0) (<= %s 64) (= (= %s 0) (= %s 0)))", r, r, r, x))
-			vc.fact(fmt.Sprintf("(=> (> %s 0) (and (<= %s %s) (< %s %s)))", x, vc.pow2Term("(- "+r+" 1)"), x, x, vc.pow2Term(r)))
+			// 2^(len-1) <= x < 2^len, spelled out per value (no recursive power function)
+			for k := 1; k <= 64; k++ {
+				vc.fact(fmt.Sprintf("(=> (= %s %d) (and (<= %s %s) (< %s %s)))", r, k, pow2(k-1).String(), x, x, pow2(k).String()))
+			}
 			vc.setRes(in, intT(r))
 			vc.modelUsed(name)
 			return true
@@ -129,7 +132,10 @@ func (vc *FnVC) libModel(in *ssa.Call, callee *ssa.Function) bool {
 			r := vc.freshConst("lz", "Int")
 			x := a(0)
 			vc.fact(fmt.Sprintf("(and (>= %s 0) (<= %s 64) (= (= %s 64) (= %s 0)))", r, r, r, x))
-			vc.fact(fmt.Sprintf("(=> (> %s 0) (and (<= %s %s) (< %s %s)))", x, vc.pow2Term("(- 63 "+r+")"), x, x, vc.pow2Term("(- 64 "+r+")")))
+			// 2^(63-lz) <= x < 2^(64-lz), spelled out per value (no recursive power function)
+			for k := 0; k <= 63; k++ {
+				vc.fact(fmt.Sprintf("(=> (= %s %d) (and (<= %s %s) (< %s %s)))", r, k, pow2(63-k).String(), x, x, pow2(64-k).String()))
+			}
 			vc.setRes(in, intT(r))
 			vc.modelUsed(name)
 			return true
